@@ -284,6 +284,27 @@ theorem C06_cimvalue_array_typed_partial (env : Env) (l : List Sc) (t : Ty) (r :
     simp only [hasType]
     exact mapM_all _ _ l rs (fun a b ha hab => cimvalueSc_typed env a t b hab (hx a ha) (hi a ha)) hm
 
+/-- with `type=None` the type is inferred by cimtype(): whatever is accepted is stored typed as that inferred type
+    (no exclusion needed: the pass-through class cannot arise, ints/floats are rejected by the inference) -/
+theorem C06_cimvalue_inferred_type_typed (env : Env) (s r : Sc) (hs : s ≠ .none)
+    (h : cimvalue env (.sc s) none = .ok (.sc r)) (hi : scInv s = true) :
+    ∃ ty, cimtypeSc s = .ok ty ∧ hasTypeSc r ty = true := by
+  unfold cimvalue at h
+  split at h
+  · rename_i heq; simp at heq; exact absurd heq hs
+  · simp only [cimtypeVal, bind, Except.bind] at h
+    cases hc : cimtypeSc s with
+    | error e => simp [hc] at h
+    | ok ty =>
+      simp only [hc] at h
+      cases hv : cimvalueSc env s ty with
+      | error e => simp [hv] at h
+      | ok r' =>
+        simp [hv, pure, Except.pure] at h
+        subst h
+        refine ⟨ty, rfl, cimvalueSc_typed env s ty r' hv ?_ hi⟩
+        cases s <;> simp [cimtypeSc] at hc <;> subst hc <;> simp [passesUntyped]
+
 /-- an integer given for an integer type is stored as exactly that integer of exactly that type -/
 theorem C06_cimvalue_int_exact (env : Env) (v : Int) (ty : IntTy) (r : Sc)
     (h : cimvalueSc env (.int v) (.int ty) = .ok r) : r = .cimInt ty v := by
